@@ -218,7 +218,7 @@ def trace_line(trace, n):
 # ---------------------------------------------------------------------------
 # verdicts and evidence
 
-def save_replay(pid, files, note):
+def save_replay(pid, files, note, meta=None):
     d = os.path.join(REPLAYS, pid)
     os.makedirs(d, exist_ok=True)
     stamp = "%d-%d" % (seed(), os.getpid())
@@ -229,7 +229,32 @@ def save_replay(pid, files, note):
             shutil.copy(f, dst)
     with open(os.path.join(dst, "NOTE.txt"), "w") as f:
         f.write(note + "\n")
+    if meta:
+        with open(os.path.join(dst, "replay.json"), "w") as f:
+            json.dump(meta, f)
     return dst
+
+
+def replay(pid, path):
+    """Re-validate the trace(s) saved with a reported violation: exit 1 if TLC still rejects one."""
+    mp = os.path.join(path, "replay.json")
+    if not os.path.exists(mp):
+        log("no replay.json in %s (the violation was not a rejected trace: see NOTE.txt)" % path)
+        log(open(os.path.join(path, "NOTE.txt")).read()[:3000] if os.path.exists(os.path.join(path, "NOTE.txt")) else "")
+        return 1
+    meta = json.load(open(mp))
+    work = scratch(pid + "-replay")
+    trace = os.path.join(path, meta["trace"])
+    ok, matched, total, out = validate_trace(meta["module"], meta["cfg"], trace, work, focus=meta.get("focus", "all"), env={"VIP_DEBUG": "1"})
+    shutil.rmtree(work, ignore_errors=True)
+    if ok:
+        log("replay: trace %s is accepted by %s (focus %s)" % (meta["trace"], meta["module"], meta.get("focus")))
+        return 0
+    why = re.findall(r'<<"MISMATCH at line", (\d+), "([^"]+)">>', out)
+    why = [w for w in why if int(w[0]) == matched + 1]
+    log("VIOLATION property=%s replay=%s" % (pid, path))
+    log("  trace %s rejected at line %d of %d%s: %s" % (meta["trace"], matched + 1, total, (" [%s]" % why[-1][1]) if why else "", (trace_line(trace, matched + 1) or "")[:1200]))
+    return 1
 
 
 def write_evidence(pid, tier, level, coverage, assumptions, wall, violations=0):
